@@ -16,12 +16,15 @@ ALL_CAPS = [1, 2, 3, 4, 5, 8, 10, 30, 254, 255, 256, 300]
 
 RULE = ('case = capacity L x initial content of the object and of a second object x list of operations '
         '(mode A: any argument values). Exhaustive part: L in 1..2 (quick) / 1..3 (thorough), every content over '
-        '{a,b} of length 0..L, every modelled operation (89 entry points) with every position/count argument in '
+        '{a,b} of length 0..L, every modelled operation (90 entry points) with every position/count argument in '
         '0..L+2 and {2^64-1, 2^64-2, 2^63} (third/fourth numeric arguments from a reduced set), source strings of '
         'length 0..L+2; each operation is applied to a freshly constructed object (ctor step in front of it); '
         'thorough adds all two-step mutator histories on L=1..2 (stale bytes behind the terminator). Random part: '
         'histories of 4..24 operations on L in {4,5,8,10,255,256,300} with positions/counts around length, L, '
-        '254..257 and the huge values, sources up to 2L+8 characters (sprintf up to 600). A case is non-trivial '
+        '254..257 and the huge values, sources up to 2L+8 characters (sprintf up to 600). Error path of sprintf: both '
+        'ways to make vsnprintf fail (unconvertible wide character; more than INT_MAX characters) after prior content '
+        'empty/short/full on every capacity of the harness, inspected right after the call and after a following '
+        'observer/append; a trigger that does not fire on the C library in use is not generated. A case is non-trivial '
         'when at least one step is executed by the model (not refused as outside the caller contract).')
 TRUSTED_BASE = [
     'model FixedStr/FsModel.v (+FsBase.v) written by hand from fixed_string.hpp, length_type.hpp and the two iterator '
@@ -42,7 +45,8 @@ ASSUMPTIONS = [
     'form a valid range; operator[] / iterator operator[] are documented as unchecked and are not called with '
     'indices behind the terminator',
     'source objects are not the object itself (no aliasing of *this with an argument)',
-    'vsnprintf behaves as ISO C specifies (writes at most L characters and the terminator, returns the full length)',
+    'vsnprintf behaves as ISO C specifies (writes at most L characters and the terminator, returns the full length; '
+    'when it fails it returns a negative value and has written only inside the L+1 bytes it was given)',
     'sizeof(size_t) = 8',
 ]
 
@@ -547,6 +551,12 @@ def shrink(case):
             yield ' '.join(head + ops[:i] + ops[i + 2:])
     # shorter initial contents
     for j in (2, 3):
+        if head[j] != '-':
+            for repl in ('-', head[j][:2 * (len(head[j]) // 4)] or '-'):
+                if repl != head[j]:
+                    h2 = list(head)
+                    h2[j] = repl
+                    yield ' '.join(h2 + ops)
         if head[j] != '-' and len(head[j]) > 2:
             h2 = list(head)
             h2[j] = head[j][:-2]
@@ -555,8 +565,8 @@ def shrink(case):
 
 CLAIM = {
     'text': 'Coq theorems (Properties_C10.v) over an executable model of FixedString<L>: for every capacity 1 <= L < 2^64-1, '
-            'every pair of well-formed objects, every one of the 89 modelled entry points (all mutators and observers incl. the '
-            '30 find overloads, both traversal directions and single iterator steps) and all size_t argument values - positions and counts up to '
+            'every pair of well-formed objects, every one of the 90 modelled entry points (all mutators incl. the error path of sprintf, all '
+            'observers incl. the 30 find overloads, both traversal directions and single iterator steps) and all size_t argument values - positions and counts up to '
             '2^64-1 - the operation returns normally, no access leaves the object, its source arguments or the destination of '
             'copy(), and the object is well-formed afterwards (L+1 bytes, length <= L, terminator at the length, '
             'strlen = length when no NUL is stored); the same along any history (induction). The model is tied to the code by a '
